@@ -90,7 +90,29 @@ func addrIn(r *hlib.Rand, p netip.Prefix) netip.Addr {
 	return out
 }
 
+// hostBitsFamily: deterministic cases (independent of the random stream) in which the configured mask address
+// has non-zero bits outside its prefix length (e.g. `mask: 192.168.1.77/24`): constructor fields, Apply and
+// addCalculatedRemotes for both families and several lengths.
+func hostBitsFamily(emit func(string, ...any)) {
+	emit("new 0a000a00/24 c0a8014d/24 4242")
+	emit("v4 0a000a00/24 c0a8014d/24 4242 0a000ab6")
+	emit("add 0a000000/8 0a000ab6 1 0a000a00/24 1 c0a8014d/24 4242")
+	for _, l := range []int{0, 1, 7, 8, 9, 16, 23, 24, 25, 31, 32} {
+		emit("v4 0a000000/8 ffffffff/%d 80 00000000", l)
+		emit("v4 0a000000/8 a5a5a5a5/%d 80 5a5a5a5a", l)
+		emit("new 0a000000/8 a5a5a5a5/%d 80", l)
+		emit("add 64400000/10 0a000001 1 0a000000/8 2 ffffffff/%d 80 a5a5a5a5/%d 81", l, l)
+	}
+	for _, l := range []int{0, 1, 63, 64, 65, 96, 120, 127, 128} {
+		emit("v6 fd000000000000000000000000000000/8 ffffffffffffffffffffffffffffffff/%d 80 00000000000000000000000000000000", l)
+		emit("v6 fd000000000000000000000000000000/8 a5a5a5a5a5a5a5a5a5a5a5a5a5a5a5a5/%d 80 fd5a5a5a5a5a5a5a5a5a5a5a5a5a5a5a", l)
+		emit("new fd000000000000000000000000000000/8 a5a5a5a5a5a5a5a5a5a5a5a5a5a5a5a5/%d 80", l)
+		emit("add fe800000000000000000000000000000/10 fd000000000000000000000000000001 1 fd000000000000000000000000000000/8 1 ffffffffffffffffffffffffffffffff/%d 80", l)
+	}
+}
+
 func gen(r *hlib.Rand, n int, tier, profile string, emit func(string, ...any)) {
+	hostBitsFamily(emit)
 	if tier == "thorough" {
 		// every mask length of both families against fixed bit patterns
 		for _, v6 := range []bool{false, true} {
